@@ -462,24 +462,24 @@ def coqchk_finish(ctx, proc, name, timeout=1500):
 
 
 # ---------------------------------------------------------------------------
-def paths_translator(ctx):
-    """translators/paths2coq.py: regenerate Gallina from writer.find_max_part, the part-name computation of writer.write_multi,
-    util.join_path, util.path_string and api.PART_ID and re-prove coq/genproofs/GenPathsProofs.v over the generated text (tie of
+def partnames_translator(ctx):
+    """translators/partnames2coq.py: regenerate Gallina from writer.find_max_part, the part-name computation of writer.write_multi,
+    util.join_path, util.path_string and api.PART_ID and re-prove coq/genproofs/GenPartNamesProofs.v over the generated text (tie of
     the hand models of Dataset/FsPaths.v to the code as it is now).  A construct outside the translator's fragment, or generated
     text coqc rejects, is recorded as translator_fallback (the hand model + function-against-function correspondence remain)."""
     import sys
     from harness import common as C
     sys.path.insert(0, C.VERIF)
-    from translators import paths2coq
-    r = paths2coq.run(C.REPO, ctx.gen_dir)
-    ctx.extra["translator"] = {"GenPaths": {k: v for k, v in r.items() if k not in ("file", "text")}}
+    from translators import partnames2coq
+    r = partnames2coq.run(C.REPO, ctx.gen_dir)
+    ctx.extra["translator"] = {"GenPartNames": {k: v for k, v in r.items() if k not in ("file", "text")}}
     if r["status"] != "translated":
-        ctx.notes.append("translator_fallback: GenPaths: %s" % r["reason"])
+        ctx.notes.append("translator_fallback: GenPartNames: %s" % r["reason"])
         return False
     ok, out = C.coqc(r["file"], extra_q=[(ctx.gen_dir, "PqGen")])
     if not ok:
-        ctx.notes.append("translator_fallback: GenPaths: generated file rejected by coqc: %s" % out[-300:])
-        ctx.extra["translator"]["GenPaths"]["status"] = "translator_fallback"
+        ctx.notes.append("translator_fallback: GenPartNames: generated file rejected by coqc: %s" % out[-300:])
+        ctx.extra["translator"]["GenPartNames"]["status"] = "translator_fallback"
         return False
-    ctx.coq_file(os.path.join(C.COQ, "genproofs", "GenPathsProofs.v"), extra_q=[(ctx.gen_dir, "PqGen")])
+    ctx.coq_file(os.path.join(C.COQ, "genproofs", "GenPartNamesProofs.v"), extra_q=[(ctx.gen_dir, "PqGen")])
     return True
